@@ -39,7 +39,7 @@ def run(ctx):
         "the model abstracts commands to read/write of single keys; splitting/assembly of multi-key commands is exercised by the replay observers and by C01",
     ]
     r = ctx.mc("redis", "MC_Cluster", "MC_Cluster_stable_thorough.cfg" if ctx.thorough else "MC_Cluster_stable.cfg",
-               workers=8, timeout=1500, coverage=not ctx.thorough)
+               workers=(8 if ctx.thorough else 4), timeout=1500, coverage=not ctx.thorough)
     if r.coverage:
         ctx.check_vacuity(r, "Cluster", ignore=("AskSecond", "Refresh", "SetMigrating", "MigrateKey", "Finalise", "DialError", "Failover",
                                                 "ParkedResend"))
